@@ -29,6 +29,8 @@ def main(argv=None):
     sys.setrecursionlimit(10000)
     from . import lprun
     lprun.root()
+    from . import evidence, pool
+    pool.KNOWN_FPS = set(evidence.known_for(pid))
     mod = importlib.import_module("vf.checks." + pid.lower())
     if a.replay:
         return mod.replay(a.replay)
